@@ -10,6 +10,7 @@ import (
 	"os/exec"
 	"strings"
 	"sync"
+	"time"
 
 	"github.com/gregoryv/mq"
 
@@ -90,6 +91,24 @@ func c11Perm(site, n int) []int {
 	}
 	return p
 }
+
+// The simulated clock: the only clock the instrumented library can read
+// (cmd/instr routes time.Now/Since/Until to mq.VerifNow). It never moves by
+// itself; the run moves it - by nothing, by fractions of a second, by seconds,
+// hours, a year, and backwards - between the operations it performs.
+var c11Clock = time.Date(2026, 1, 1, 0, 0, 0, 0, time.UTC)
+
+var c11Jumps = []time.Duration{0, time.Millisecond, 999 * time.Millisecond, time.Second, 2 * time.Second, 61 * time.Second,
+	time.Hour, 25 * time.Hour, 400 * 24 * time.Hour, -time.Hour, -3 * time.Second}
+
+func c11Jump(c *sim.Ctx) time.Duration {
+	d := c11Jumps[c.T.Int(len(c11Jumps))]
+	c11Clock = c11Clock.Add(d)
+	c.Count("fault.clock-jump:" + d.String())
+	return d
+}
+
+func init() { mq.VerifNow = func() time.Time { return c11Clock } }
 
 func c11Encode(p mq.Packet, mode, idx int) ([]byte, error, *sim.PanicInfo) {
 	c11Mode, c11PermIdx = mode, idx
@@ -221,6 +240,7 @@ func runC11(c *sim.Ctx) *sim.Violation {
 	// since the last setter): a snapshot taken by reflection before it must still
 	// hold afterwards (no lazily filled cache, no "normalising" of the packet)
 	{
+		c11Jump(c)
 		deep0 := drv.DeepHash(p)
 		k0 := t.Int(6)
 		var name string
@@ -235,6 +255,14 @@ func runC11(c *sim.Ctx) *sim.Violation {
 		return sim.V("C11/"+typ+"/encode-failed", "err=%v panic=%v\n%s", err, pi, a.Canon())
 	}
 	c.EvBytes("encode", B0)
+	// the clock moves; the packet does not: same bytes at a later (or earlier) instant
+	for k := 0; k < 2; k++ {
+		d := c11Jump(c)
+		if b, _, _ := c11Encode(p, 1, 0); !bytes.Equal(b, B0) {
+			return sim.V("C11/"+typ+"/encoding-depends-on-the-clock",
+				"%s packet (%s): first encoding %s; after the simulated clock moved by %v the same packet encodes as %s", typ, how, hexs(B0), d, hexs(b))
+		}
+	}
 	desc := func() string { return fmt.Sprintf("%s packet (%s), first encoding %s", typ, how, hexs(B0)) }
 	// (i) seam mode: systematic permutations
 	for idx := 1; idx < 24; idx++ {
@@ -428,7 +456,8 @@ var C11 = &sim.Scenario{
 			m[k] = v
 		}
 		m["node"] = "REAL code of github.com/gregoryv/mq from /repo's working tree, instrumented copy (map-order seam) for seam mode and in-process native mode; UNMODIFIED build in two child processes for cross-process native mode"
-		m["instrumented"] = "yes: range-over-map behind verifMapOrder; hooks nil = native order"
+		m["instrumented"] = "yes: range-over-map behind verifMapOrder; time.Now/Since/Until behind verifNow; hooks nil = native order and real clock"
+		m["clock"] = "SIMULATED: the instrumented library's only clock is mq.VerifNow = the run's clock, which moves only by tape-drawn jumps (0, 1 ms .. 400 days, and backwards) between operations"
 		return m
 	}(),
 	MaxWorkers: 1,
@@ -441,6 +470,6 @@ var C11 = &sim.Scenario{
 	},
 	RunFn: runC11,
 	Extra: func(th bool, counts map[string]int64) map[string]interface{} {
-		return map[string]interface{}{"map_ranges_behind_the_seam": mq.VerifMapRanges, "runs_compared_with_child_processes": len(c11ChildOut)}
+		return map[string]interface{}{"map_ranges_behind_the_seam": mq.VerifMapRanges, "clock_uses_behind_the_seam": mq.VerifClockUses, "unseamed_nondeterminism_sources_in_the_library": mq.VerifUnseamed, "runs_compared_with_child_processes": len(c11ChildOut)}
 	},
 }
